@@ -30,4 +30,5 @@ def with_state_lint(prop, run):
             shared.no_new_state(check, rels)
             shared.arg_binding(check, rels)
             shared.edge_orientation(check, rels)
+            shared.handlers_unchanged(check, rels)
     return wrapped
